@@ -77,6 +77,11 @@ def allocStatic (h : Heap) (s : Bytes) : Heap × Handle :=
 def allocTemp (h : Heap) (name : Bytes) : Heap × Handle :=
   ({ h with slots := h.slots ++ [.perm []] }, .inl name)
 
+/-- `sync_temp_counter`: pad the table with dummy permanent slots up to the counter value
+(`TempPStrCounter` hands out `_t<id>` names for ids starting at the table length). -/
+def syncTempCounter (h : Heap) (target : Nat) : Heap :=
+  { h with slots := h.slots ++ List.replicate (target - h.slots.length) (.perm []) }
+
 /-- `make_string_permanent`: would the `expect` succeed? -/
 def makePermanentOk (h : Heap) (p : Handle) : Bool :=
   match p with
@@ -231,6 +236,7 @@ inductive Op where
   | popUnmarked (choice : Option Nat)
   | mark (p : Handle)
   | sweep (work : Nat)
+  | syncTemp (target : Nat)
   deriving Repr
 
 def step (h : Heap) : Op → Heap
@@ -242,6 +248,7 @@ def step (h : Heap) : Op → Heap
   | .popUnmarked c => (popUnmarked h c).getD h
   | .mark p => mark h p
   | .sweep w => sweep h w
+  | .syncTemp t => syncTempCounter h t
 
 def run (ops : List Op) (h : Heap := init) : Heap := ops.foldl step h
 
